@@ -1441,6 +1441,12 @@ func (rc *RegClient) imageImportDockerAddLayerHandlers(ctx context.Context, r re
 					d.MediaType = mediatype.Docker2LayerGzip
 					trd.dockerManifest.Layers[i] = d
 				}
+				// the same file may be listed for more than one layer, only one handler exists per file
+				for j, other := range trd.dockerManifestList[index].Layers {
+					if j != i && filepath.ToSlash(filepath.Clean(other)) == filepath.ToSlash(filepath.Clean(trd.dockerManifestList[index].Layers[i])) {
+						trd.dockerManifest.Layers[j] = trd.dockerManifest.Layers[i]
+					}
+				}
 				return nil
 			}
 		}(i)
